@@ -665,14 +665,10 @@ theorem addRef_sound {D : Base B} {A A' : RS B} {σ : State} {r g : Nat} {q : Pt
       | dup => simp [valOf, Val.set]
     rw [this]; exact hbase c d hc'
 
-/-- `ref_make` is sound provided the counter of the region is not `1(r)` for the same variable `r`
-    and the base value does not constrain the address of `r` (both are violated by the pinned code:
-    see the counterexamples in `Props/C15.lean`) -/
-theorem make_sound_partial {D : Base B} {A : RS B} {σ σ' : State} {r g site : Nat} {size : Int}
-    (hG : Gamma D A σ) (hs : σ.refMake r g size site = some σ')
-    (hcnt : A.cnt g ≠ .one r)
-    (hfree : ∀ ρ k, D.γ A.base ρ → D.γ A.base (ρ.set (.ref r) k)) :
-    Gamma D (A.refMake r g site) σ' := by
+/-- `ref_make` is sound -/
+theorem make_sound {D : Base B} {A : RS B} {σ σ' : State} {r g site : Nat} {size : Int}
+    (hG : Gamma D A σ) (hs : σ.refMake r g size site = some σ') :
+    Gamma D (A.refMake D r g site) σ' := by
   unfold State.refMake at hs
   split at hs
   · cases hs
@@ -690,19 +686,17 @@ theorem make_sound_partial {D : Base B} {A : RS B} {σ σ' : State} {r g site : 
           cases hm : (σ.mems g').members with
           | nil => rw [hm] at hin; cases hin
           | cons _ _ => simp
-        · rw [hl]; exact SmallRange.increment_sound_partial hcnt (hG.count g')
+        · rw [hl]; exact SmallRange.increment_sound (hG.count g')
       · rw [setMem_mems_other _ _ hg]
         simp only [RS.refMake, updN_other _ _ hg, State.setRef]
         exact hG.count g'
     · intro S hS; simp only [RS.refMake, updN_same, Option.some.injEq] at hS; subst hS; simp
     · intro r' h; simp only [RS.refMake, updN_other _ _ h]
-    · intro c d hc; exact hfree _ _ (hG.base c d hc)
+    · intro c d hc; exact D.forget_sound _ _ (hG.base c d hc)
 
-/-- `ref_gep` with a constant offset is sound provided the counter of the target region is not
-    `1(r2)` for the assigned variable when it is incremented -/
-theorem gep_sound_partial {D : Base B} {A : RS B} {σ σ' : State} {r1 g1 r2 g2 : Nat} {k : Int}
-    (hG : Gamma D A σ) (hs : σ.refGep r1 g1 r2 g2 k = some σ')
-    (hcnt : ¬ (g1 = g2 ∧ k = 0) → A.cnt g2 ≠ .one r2) :
+/-- `ref_gep` with a constant offset is sound -/
+theorem gep_sound {D : Base B} {A : RS B} {σ σ' : State} {r1 g1 r2 g2 : Nat} {k : Int}
+    (hG : Gamma D A σ) (hs : σ.refGep r1 g1 r2 g2 k = some σ') :
     Gamma D (A.refGep D r1 g1 r2 g2 k) σ' := by
   unfold State.refGep at hs
   split at hs
@@ -735,7 +729,7 @@ theorem gep_sound_partial {D : Base B} {A : RS B} {σ σ' : State} {r1 g1 r2 g2 
             cases hm : (σ.mems g').members with
             | nil => rw [hm] at hin; cases hin
             | cons _ _ => simp
-          · rw [hl]; exact SmallRange.increment_sound_partial (hcnt hz) (hG.count g')
+          · rw [hl]; exact SmallRange.increment_sound (hG.count g')
       · rw [setMem_mems_other _ _ hg]
         simp only [State.setRef]
         have : (A.refGep D r1 g1 r2 g2 k).cnt g' = A.cnt g' := by
